@@ -14,7 +14,9 @@
 From Coq Require Import List Bool Arith NArith ZArith Permutation.
 From Coq.Strings Require Import String.
 From Verif Require Import Base.Bytes Idl.Ast Idl.AstUtil Idl.Resolve Idl.ResolveSpec Idl.ResolveTd
-     Idl.ResolveDeref Idl.ResolvePerm Idl.ResolvePermFile Idl.ResolveFacts.
+     Idl.ResolveDeref Idl.ResolvePerm Idl.ResolvePermFile Idl.ResolveFacts
+     Idl.ResolvableSpec Idl.ResolveComplete Idl.ResolvePath Idl.ResolveFuel Idl.ResolveFuelEnum
+     Idl.ResolvableConst Idl.ResolveCompleteConst Idl.ResolvableFacts Idl.ResolveInv Idl.ResolveConst.
 Import ListNotations.
 Local Open Scope string_scope.
 
@@ -153,6 +155,67 @@ Theorem deref_spec : forall p r,
 Proof. exact ResolveFacts.deref_spec. Qed.
 Print Assumptions deref_spec.
 
+(* ---------------------------------------------------------------- completeness and fuel *)
+
+(* COMPLETENESS.  [resolvable p] (Idl/ResolvableSpec.v, Idl/ResolvableConst.v) is a boolean
+   computed from the symbol table of the parsed program only: definition names are plain
+   identifiers; per file the global names are distinct, every type occurrence has the
+   parser's shape and every name in it denotes something ([denotes_b], which decides
+   [name_denotes], see [denotes_decidable]), every base service exists, every identifier
+   used as a value is true / false or has exactly one explanation ([explanations] counts
+   the [const_denotes] alternatives); the include tree below the main file is present
+   and free of cycles ([includes_ok]).  On every such program the resolver model succeeds. *)
+Theorem resolve_complete : forall p, resolvable p = true -> exists r, resolve_program p = Ok r.
+Proof. exact ResolveCompleteConst.resolve_complete. Qed.
+Print Assumptions resolve_complete.
+
+(* the type / service part alone (no identifier values), without [plain_names] *)
+Theorem resolve_complete_types : forall p, resolvable_types p = true -> exists r, resolve_program p = Ok r.
+Proof. exact ResolveComplete.resolve_complete_types. Qed.
+Print Assumptions resolve_complete_types.
+
+(* the executable denotation with the fuel [denote_fuel] decides the specification *)
+Theorem denotes_decidable : forall p fn n, denotes_b p fn n = true <-> exists d, name_denotes p fn n d.
+Proof. exact denotes_b_iff. Qed.
+Print Assumptions denotes_decidable.
+
+(* an identifier accepted by the count has an explanation *)
+Theorem ident_ok_denotes : forall p fn s, ident_ok p fn s = true -> exists e, const_denotes p fn s e.
+Proof. exact ResolvableFacts.ident_ok_denotes. Qed.
+Print Assumptions ident_ok_denotes.
+
+(* the pigeonhole behind every fuel: a typedef chain passes through pairwise distinct
+   typedefs, so through at most as many as the program has *)
+Theorem typedef_chain_bound : forall p fn n d l, def_path p fn n d l -> NoDup l /\ List.length l <= prog_typedef_count p.
+Proof. intros p fn n d l H. split; [eapply def_path_NoDup; eauto | eapply def_path_bound; eauto]. Qed.
+Print Assumptions typedef_chain_bound.
+
+(* FUEL.  Deref with the fuel the model uses ([deref_fuel]) arrives at the denoted
+   definition: [deref_spec] without its "for sufficient fuel" *)
+Theorem deref_spec_fuel : forall p r,
+  parsed_program p = true -> resolve_program p = Ok r ->
+  forall fn f' t, prog_file r fn = Some f' -> f_name2cat f' <> None -> In t (file_occs f') ->
+  exists d, name_denotes p fn (ty_name t) d /\ deref_within r f' t d (deref_fuel r).
+Proof. exact ResolveFuel.deref_spec_fuel. Qed.
+Print Assumptions deref_spec_fuel.
+
+(* getEnum with the fuel the model gives it ([enum_fuel]) never runs out while a file
+   is resolved, on a file of the finished ones or the current one ([ectx], [near]),
+   provided every typedef of the program has a chain end and names are plain.
+   (The fuel of the typedef fixpoint is [typedef_fixpoint_complete] above; the fuel of
+   the include driver is part of [resolve_complete].) *)
+Theorem enum_fuel_suffices : forall p done fn f,
+  inv p done -> prog_file p fn = Some f ->
+  (forall i, In i (f_includes f) -> exists hn, in_ref i = Some hn /\ lookup hn done <> None) ->
+  plain_names p = true ->
+  (forall gn n tgt, def_of p gn n = Some (DkTypedef tgt) -> exists d, def_denotes p gn n d) ->
+  forall n2c tds1 gn g g' name,
+  mapM (resolve_typedef done (with_name2cat f (Some n2c))) (f_typedefs f) = Ok tds1 ->
+  ectx p done gn g g' -> near done fn gn ->
+  exists res, get_enum (enum_fuel done (cur1 f n2c tds1)) done g' name = Ok res.
+Proof. exact ResolveFuelEnum.enum_fuel_suffices. Qed.
+Print Assumptions enum_fuel_suffices.
+
 (* ---------------------------------------------------------------- the hypotheses are satisfiable *)
 
 Definition ex_x : file :=
@@ -208,3 +271,7 @@ Proof.
   - unfold file_perm, ex_main, ex_main_swapped. cbn. repeat split; try apply Permutation_refl. apply perm_swap.
   - unfold file_perm. repeat split; apply Permutation_refl.
 Qed.
+
+(* the example program is resolvable in the decidable sense *)
+Example ex_resolvable : resolvable ex_p = true.
+Proof. vm_compute. reflexivity. Qed.
